@@ -93,6 +93,36 @@ def corrupt_store_get(run):
     return None
 
 
+def corrupt_batch1_shift(run):
+    """process_batch: the item in the middle failed, the call reports success with the later results moved up"""
+    for e in run:
+        if e.get("op") == "batch1" and not e.get("ok") and len(e.get("in", [])) >= 3:
+            bad = set(e["failF"] + e["failG"] + e["slow"])
+            f = {"F": lambda x: 2 * x + 1, "G": lambda x: x + 3, "S": lambda x: x}[e["kind"]]
+            e["ok"] = True
+            e["out"] = [f(x) for x in e["in"] if x not in bad]
+            return run
+    return None
+
+
+def corrupt_batch1_value(run):
+    for e in run:
+        if e.get("op") == "batch1" and e.get("ok") and len(e.get("out", [])) >= 2 and e["out"][0] != e["out"][-1]:
+            e["out"][0], e["out"][-1] = e["out"][-1], e["out"][0]
+            return run
+    return None
+
+
+def corrupt_copy_from(run):
+    """copy_to copied from the start of the source instead of the position"""
+    for e in run:
+        if e.get("op") == "copy_from" and e.get("ok") and e["pos"] > 0 and len(e["src"]) > e["pos"]:
+            e["dst"] = e["src"]
+            e["n"] = len(e["src"])
+            return run
+    return None
+
+
 def _files(s):
     return sorted(glob.glob(os.path.join(s["_out"], "*.ndjson")))
 
@@ -138,6 +168,12 @@ def run_ext(ctx):
                          corrupt_stream_swap, "two outputs of execute_stream swapped")
     ctx.selftest_corrupt(TRACE, first_with(st, lambda e: e.get("op") == "stream" and e.get("ok") and len(e.get("out_vals", [])) >= 1),
                          corrupt_stream_drop, "an item missing from the output of a successful execute_stream")
+    ctx.selftest_corrupt(TRACE, first_with(st, lambda e: e.get("op") == "batch1" and not e.get("ok") and len(e.get("in", [])) >= 3),
+                         corrupt_batch1_shift, "process_batch: results after a failing / timed-out item moved up, call reported Ok")
+    ctx.selftest_corrupt(TRACE, first_with(st, lambda e: e.get("op") == "batch1" and e.get("ok") and len(e.get("out", [])) >= 2 and e["out"][0] != e["out"][-1]),
+                         corrupt_batch1_value, "process_batch: two results exchanged")
+    ctx.selftest_corrupt(TRACE, first_with(io, lambda e: e.get("op") == "copy_from" and e.get("ok") and e["pos"] > 0 and len(e["src"]) > e["pos"]),
+                         corrupt_copy_from, "FiberFile::copy_to copying from the start instead of the position")
     ctx.selftest_corrupt(TRACE, bc[0], corrupt_batch_lost, "an item missing from a batch of the collector")
     ctx.selftest_corrupt(TRACE, first_with(bc, lambda e: e.get("op") == "deliver"), corrupt_batch_dup, "a batch delivered twice by the timeout checker")
     ctx.selftest_corrupt(TRACE, fy[0], corrupt_fiber_twice, "a fiber completing twice")
@@ -158,7 +194,8 @@ def run_ext(ctx):
     cov["ext_file_ops"] = s_io.get("file_ops", 0)
     cov["ext_async_store_records_put"] = s_as.get("records_put", 0)
     cov["ext_rule"] = ("stream: seeded execute_stream calls (0..20 items, 1..4 stages over F, G and a stage sleeping past the stage timeout, channel capacities 1..64, "
-                       "slow consumer), execute_two_stage / execute_single, BatchMapStage x batching on/off x batch function, FilterStage; "
+                       "slow consumer), execute_two_stage / execute_single, BatchMapStage x batching on/off x batch function, FilterStage, process_batch (PipelineBuilder) with an item failing / timing out in the middle, "
+                       "in-flight limit 1 / n / n+1; "
                        "collect: seeded sequential add/check_timeout/flush/len histories (max 1..5, timeouts 0, 2, 8 ms, 10 s) and producers (1..3) + start_timeout_checker; "
                        "store: 1, 2, 4, 8 concurrent tasks on AsyncMemoryBlobStore / AsyncFileStore / AsyncCompressedBlobStore; "
                        "yield: 1..20 fibers x FiberYield / FiberYieldHandle / YieldPoint / GlobalYield x budgets 0..255; helpers of CooperativeUtils / YieldingIterator; "
